@@ -45,7 +45,7 @@ fn real_main() {
     }
     let a = rep::Args::parse(&args[1..]);
     let stuck_s: f64 = std::env::var("VH_STUCK_S").ok().and_then(|x| x.parse().ok()).unwrap_or(120.0);
-    rep::watchdog::start(a.out.clone(), stuck_s);
+    rep::watchdog::start(a.out.clone(), stuck_s, a.max_s * 4.0 + 600.0);
     match args[0].as_str() {
         "diff" => c_diff::main(&a),
         "c02" => c02::main(&a),
